@@ -674,3 +674,236 @@ Proof.
   - intros t g. rewrite G. discriminate.
   - intros t1 t2 g1 g2 _. rewrite G. discriminate.
 Qed.
+
+(* ------------------------------------------------------------------------------------------------ *)
+(* chunks are never replaced or resized (so handed-out memory never moves), except that TrimTo frees  *)
+(* ------------------------------------------------------------------------------------------------ *)
+Lemma add_buffer_at_stable cs k m cs' : add_buffer_at cs k m = ABOk cs' ->
+  length cs' = length cs /\ forall i, chunk_len cs i <> 0 -> nthN cs' i None = nthN cs i None.
+Proof.
+  unfold add_buffer_at. pose proof (ab_find_spec 65 cs k m) as Hs.
+  destruct (ab_find 65 cs k m) as [| |j|]; try discriminate.
+  - intros E; inversion E; subst. auto.
+  - destruct Hs as (_ & _ & Hz). destruct (page_size _ m); [|discriminate].
+    intros E; inversion E; subst. split; [apply length_upd|].
+    intros i Hi. apply nthN_updN_other. congruence.
+Qed.
+
+Lemma thread_step_chunks st t st' : thread_step st t = Some st' ->
+  length (chunks st') = length (chunks st) /\
+  forall i, chunk_len (chunks st) i <> 0 -> nthN (chunks st') i None = nthN (chunks st) i None.
+Proof.
+  unfold thread_step. intros H.
+  destruct (get_pc st t); try discriminate;
+    repeat match type of H with
+           | (if ?c then _ else _) = _ => destruct c
+           | match lock st with _ => _ end = _ => destruct (lock st)
+           end; try discriminate; try (inversion H; subst st'; sstate; auto; fail).
+  destruct (add_buffer_at (chunks st) (b + 1) sz) eqn:E; inversion H; subst st'; sstate; auto.
+  now apply add_buffer_at_stable in E.
+Qed.
+
+Theorem chunks_stable st c st' : astep st c = Some st' -> (forall max, c <> AcTrim max) ->
+  length (chunks st') = length (chunks st) /\
+  forall i l, nthN (chunks st) i None = Some l -> 0 < l -> nthN (chunks st') i None = Some l.
+Proof.
+  intros H Hc.
+  assert (G : length (chunks st') = length (chunks st) /\
+              forall i, chunk_len (chunks st) i <> 0 -> nthN (chunks st') i None = nthN (chunks st) i None).
+  { destruct c as [t sz|t| |max]; cbn [astep] in H.
+    - destruct ((t <? length (threads st))%nat && pc_returned (get_pc st t)); inversion H; subst; sstate; auto.
+    - now apply thread_step_chunks in H.
+    - inversion H; subst; sstate; auto.
+    - exfalso. now apply (Hc max). }
+  destruct G as (G1 & G2). split; auto. intros i l E Hl. rewrite G2; auto.
+  unfold chunk_len. rewrite E. lia.
+Qed.
+
+Theorem trim_only_frees st max i : 
+  nthN (chunks (a_trim_to st max)) i None = nthN (chunks st) i None \/ nthN (chunks (a_trim_to st max)) i None = None.
+Proof. unfold a_trim_to. cbn [astep]. sstate. apply trim_loop_nth. Qed.
+
+(* ------------------------------------------------------------------------------------------------ *)
+(* exact length; what a returning call appends to the log                                            *)
+(* ------------------------------------------------------------------------------------------------ *)
+Definition req_size (p : apc) : option N :=
+  match p with
+  | TReq sz | TAdded sz _ | TFits sz _ _ | TWantLock sz _ | TLocked sz _ | TGrow sz _ | TGrown sz _
+  | TUnlocking sz => Some sz
+  | _ => None
+  end.
+
+Lemma thread_step_size st t st' sz :
+  req_size (get_pc st t) = Some sz -> thread_step st t = Some st' ->
+  match get_pc st' t with
+  | TDone (ORange b lo n) => n = sz /\ handed st' = (b, lo, n) :: handed st
+  | TDone _ => True
+  | p' => req_size p' = Some sz
+  end /\ forall t', t' <> t -> get_pc st' t' = get_pc st t'.
+Proof.
+  intros Hr H.
+  assert (Ht : (t < length (threads st))%nat).
+  { apply get_pc_live. intros E. rewrite E in Hr. discriminate. }
+  unfold thread_step in H.
+  destruct (get_pc st t) eqn:E; try discriminate; cbn [req_size] in Hr; inversion Hr; subst;
+    repeat match type of H with
+           | (if ?c then _ else _) = _ => destruct c
+           | match lock st with _ => _ end = _ => destruct (lock st)
+           | match add_buffer_at ?a ?b ?c with _ => _ end = _ => destruct (add_buffer_at a b c)
+           end; try discriminate; inversion H; subst st'; clear H;
+    (split; [rewrite get_set_same by (sstate; auto); cbn; auto|
+            intros t' Hne; rewrite get_set_other by auto; reflexivity]).
+Qed.
+
+Lemma run_thread_done fuel st t o : get_pc st t = TDone o -> run_thread fuel st t = (st, Some o).
+Proof. destruct fuel; cbn [run_thread]; intros ->; reflexivity. Qed.
+
+Lemma run_thread_unfold fuel st t : (forall o, get_pc st t <> TDone o) ->
+  run_thread (S fuel) st t =
+  match thread_step st t with None => (st, None) | Some st' => run_thread fuel st' t end.
+Proof. intros H. cbn [run_thread]. destruct (get_pc st t); try reflexivity. exfalso. eapply H; eauto. Qed.
+
+Lemma run_thread_zero st t : (forall o, get_pc st t <> TDone o) -> run_thread 0 st t = (st, None).
+Proof. intros H. cbn [run_thread]. destruct (get_pc st t); try reflexivity. exfalso. eapply H; eauto. Qed.
+
+Lemma req_size_not_done p sz : req_size p = Some sz -> forall o, p <> TDone o.
+Proof. intros H o ->. discriminate. Qed.
+
+Lemma run_thread_size fuel : forall st t sz st' b lo n,
+  req_size (get_pc st t) = Some sz -> run_thread fuel st t = (st', Some (ORange b lo n)) -> n = sz.
+Proof.
+  induction fuel as [|f IH]; intros st t sz st' b lo n Hr H.
+  - rewrite run_thread_zero in H by (eapply req_size_not_done; eauto). discriminate.
+  - rewrite run_thread_unfold in H by (eapply req_size_not_done; eauto).
+    destruct (thread_step st t) as [st1|] eqn:Es; [|discriminate].
+    destruct (thread_step_size st t st1 sz Hr Es) as (Hm & _).
+    destruct (get_pc st1 t) as [| | | | | | | | |o] eqn:E1;
+      try (eapply IH; [rewrite E1; exact Hm|exact H]).
+    rewrite (run_thread_done f st1 t o E1) in H. inversion H; subst. destruct Hm; auto.
+Qed.
+
+Lemma alloc_seq_size st t sz st' b lo n : alloc_seq st t sz = (st', Some (ORange b lo n)) -> n = sz.
+Proof.
+  unfold alloc_seq. cbn [astep].
+  destruct ((t <? length (threads st))%nat && pc_returned (get_pc st t)) eqn:Eg; [|discriminate].
+  apply andb_prop in Eg. destruct Eg as (Ht & _). apply Nat.ltb_lt in Ht.
+  intros H.
+  assert (G : get_pc (set_pc st t (start_pc sz)) t = start_pc sz) by (apply get_set_same; auto).
+  unfold start_pc in G, H. revert G H.
+  destruct (max_alloc <? sz) eqn:E1; [|destruct (sz =? 0) eqn:E2]; intros G H.
+  - rewrite (run_thread_done _ _ _ _ G) in H. discriminate.
+  - rewrite (run_thread_done _ _ _ _ G) in H. discriminate.
+  - eapply run_thread_size; [|exact H]. rewrite G. reflexivity.
+Qed.
+
+(* ------------------------------------------------------------------------------------------------ *)
+(* AllocateAligned, Copy                                                                             *)
+(* ------------------------------------------------------------------------------------------------ *)
+Lemma align_pad_spec base o : align_pad base o <= 7 /\ (base + o + align_pad base o) mod 8 = 0.
+Proof. unfold align_pad. split; lia. Qed.
+
+Lemma mem_zero_in m c o len c' o' : c' = c -> o <= o' < o + len -> mem_zero m c o len c' o' = 0.
+Proof.
+  intros -> H. unfold mem_zero. rewrite N.eqb_refl.
+  destruct (N.leb_spec o o'); destruct (N.ltb_spec o' (o + len)); try lia. reflexivity.
+Qed.
+Lemma mem_zero_out m c o len c' o' : ~ (c' = c /\ o <= o' < o + len) -> mem_zero m c o len c' o' = m c' o'.
+Proof.
+  intros H. unfold mem_zero.
+  destruct (N.eqb_spec c' c); destruct (N.leb_spec o o'); destruct (N.ltb_spec o' (o + len));
+    cbn [andb]; auto. exfalso. apply H. lia.
+Qed.
+Lemma mem_write_out m c o bs c' o' : ~ (c' = c /\ o <= o' < o + lenN bs) -> mem_write m c o bs c' o' = m c' o'.
+Proof.
+  intros H. unfold mem_write.
+  destruct (N.eqb_spec c' c); destruct (N.leb_spec o o'); destruct (N.ltb_spec o' (o + lenN bs));
+    cbn [andb]; auto. exfalso. apply H. lia.
+Qed.
+
+Lemma map_nth_seq {A} (l : list A) d : map (fun i => nth i l d) (seq 0 (length l)) = l.
+Proof.
+  induction l as [|a l IH]; cbn [length seq map nth]; auto.
+  f_equal. rewrite <- seq_shift, map_map. exact IH.
+Qed.
+
+Lemma mem_read_write m c o bs : mem_read (mem_write m c o bs) c o (lenN bs) = bs.
+Proof.
+  unfold mem_read, seqN, lenN. rewrite Nat2N.id, map_map.
+  etransitivity; [|apply (map_nth_seq bs 0)]. apply map_ext_in. intros k Hk. apply in_seq in Hk.
+  unfold mem_write, lenN, nthN. rewrite N.eqb_refl.
+  destruct (N.leb_spec o (o + N.of_nat k)); [|lia].
+  destruct (N.ltb_spec (o + N.of_nat k) (o + N.of_nat (length bs))); [|lia].
+  cbn [andb]. f_equal. lia.
+Qed.
+
+Theorem aligned_seq_spec bases st m t sz st' m' c o n :
+  aligned_seq bases st m t sz = (st', m', Some (ORange c o n)) ->
+  exists o0, alloc_seq st t (sz + 7) = (st', Some (ORange c o0 (sz + 7))) /\
+    n = sz /\ (bases c + o) mod 8 = 0 /\ o0 <= o /\ o + n <= o0 + (sz + 7) /\
+    (forall i, i < n -> m' c (o + i) = 0) /\
+    (forall c' o', ~ (c' = c /\ o0 <= o' < o0 + (sz + 7)) -> m' c' o' = m c' o').
+Proof.
+  unfold aligned_seq. destruct (alloc_seq st t (sz + 7)) as [st1 [o1|]] eqn:E; [|intros H; inversion H].
+  destruct o1 as [|c1 o0 n0|e]; cbn [aligned_of]; intros H; inversion H; subst; clear H.
+  pose proof (alloc_seq_size _ _ _ _ _ _ _ E) as ->.
+  pose proof (align_pad_spec (bases c) o0) as (Hp & Hm).
+  exists o0. split; [reflexivity|]. split; [reflexivity|]. split; [rewrite N.add_assoc; exact Hm|].
+  split; [lia|]. split; [lia|]. split.
+  - intros i Hi. apply mem_zero_in; auto. lia.
+  - intros c' o' Hn. apply mem_zero_out. exact Hn.
+Qed.
+
+Theorem copy_seq_spec st m t bs st' m' c o n :
+  copy_seq st m t bs = (st', m', Some (ORange c o n)) ->
+  alloc_seq st t (lenN bs) = (st', Some (ORange c o n)) /\ n = lenN bs /\
+  mem_read m' c o n = bs /\
+  (forall c' o', ~ (c' = c /\ o <= o' < o + n) -> m' c' o' = m c' o').
+Proof.
+  unfold copy_seq. destruct (alloc_seq st t (lenN bs)) as [st1 [o1|]] eqn:E; [|intros H; inversion H].
+  destruct o1 as [|c1 o0 n0|e]; intros H; inversion H; subst; clear H.
+  pose proof (alloc_seq_size _ _ _ _ _ _ _ E) as ->.
+  split; [reflexivity|]. split; [reflexivity|]. split; [apply mem_read_write|].
+  intros c' o' Hn. apply mem_write_out. exact Hn.
+Qed.
+
+(* ------------------------------------------------------------------------------------------------ *)
+(* what the invariant says about the log; corollaries used by Properties/C12.v                        *)
+(* ------------------------------------------------------------------------------------------------ *)
+Definition overlaps (g1 g2 : N * N * N) : Prop :=
+  let '(b1, lo1, n1) := g1 in let '(b2, lo2, n2) := g2 in
+  b1 = b2 /\ lo1 < lo2 + n2 /\ lo2 < lo1 + n1.
+
+Lemma gdisj_not_overlaps g1 g2 : gdisj g1 g2 -> ~ overlaps g1 g2.
+Proof. destruct g1 as [[b1 l1] n1], g2 as [[b2 l2] n2]; unfold gdisj, overlaps. lia. Qed.
+
+Definition in_chunk (st : astate) (g : N * N * N) : Prop :=
+  let '(b, lo, n) := g in
+  b < 64 /\ (nthN (chunks st) b None = None \/ lo + n <= chunk_len (chunks st) b).
+
+Theorem disjoint_all_schedules nthreads sz0 sched :
+  nocarry_run (alloc_new nthreads sz0) sched ->
+  let st := agrun (alloc_new nthreads sz0) sched in
+  ForallOrdPairs gdisj (handed st) /\
+  Forall (in_chunk st) (handed st) /\
+  (forall t g, grant_of (get_pc st t) = Some g -> Forall (gdisj g) (handed st)) /\
+  (forall t1 t2 g1 g2, t1 <> t2 -> grant_of (get_pc st t1) = Some g1 -> grant_of (get_pc st t2) = Some g2 ->
+     gdisj g1 g2) /\
+  (forall t e, get_pc st t = TDone (OPanic e) -> e = PTooBig \/ e = PLimit64) /\
+  cidx (compIdx st) < 64 /\ length (chunks st) = nbuf.
+Proof.
+  intros Hnc st. assert (HI : Inv st) by (apply inv_agrun; [apply inv_new|exact Hnc]).
+  split; [apply (inv_hh _ HI)|]. split.
+  { eapply Forall_impl; [|apply (inv_hb _ HI)]. intros [[b lo] n] ((Hb & _) & Hin).
+    split; auto. pose proof (inv_cur _ HI). lia. }
+  split; [apply (inv_th _ HI)|]. split; [apply (inv_tt _ HI)|]. split.
+  { intros t e E. pose proof (inv_pcs _ HI t) as Hp. rewrite E in Hp. exact Hp. }
+  split; [apply (inv_cur _ HI)|apply (inv_len _ HI)].
+Qed.
+
+Theorem add_buffer_at_total cs k m : length cs = nbuf -> m <= max_alloc -> add_buffer_at cs k m <> ABHang.
+Proof.
+  intros Hl Hm E. pose proof (add_buffer_at_spec cs k m Hl Hm) as H. now rewrite E in H.
+Qed.
+
+Theorem page_size_prefix_diverges fuel m : 0 < m -> page_size_prefix fuel 0 m = None.
+Proof. intros Hm. unfold page_size_prefix. change (2 * 0) with 0. now rewrite grow_loop_zero. Qed.
